@@ -199,6 +199,12 @@ class Driver:
         if not self.reqs:
             return []
         inp = "\n".join(self.reqs) + "\n"
+        # the driver is interpreted (`lean --run`): everything it imports must have been built, whichever
+        # check runs first on a fresh checkout
+        mods = [ln.split()[1] for ln in (LEAN / "Main.lean").read_text().splitlines() if ln.startswith("import ")]
+        okb, logb, _ = lake_build(mods)
+        if not okb:
+            raise LeanError("driver imports do not build: " + logb[-1500:])
         rc, out, err = run_cmd(
             ["lake", "env", "lean", "--run", "Main.lean"], cwd=LEAN, input_=inp, timeout=timeout
         )
